@@ -18,6 +18,9 @@ class Harness:
         self.unit = unit
         self.name = name
         self.tier = kv.get('tier', 'quick')
+        # tier.<Cxx>=thorough: under property <Cxx> the harness runs in the thorough tier only (it stays a quick
+        # obligation of the other properties it is listed for)
+        self.tier_by_prop = {k[5:]: v for k, v in kv.items() if k.startswith('tier.')}
         self.label = kv.get('label', 'complete')      # complete | bounded(...)
         self.props = [p for p in kv.get('props', '').split(',') if p]
         self.fn = kv.get('fn', '')
@@ -28,6 +31,9 @@ class Harness:
         # repeats it; when <ID> is not listed open the harness runs as an ordinary obligation instead of being skipped
         self.standalone = kv.get('standalone', '') == '1'
         self.result = None
+
+    def tier_for(self, prop):
+        return self.tier_by_prop.get(prop, self.tier)
 
     @property
     def oblig(self):
@@ -193,8 +199,13 @@ def kani_cmd(unit, prep, extra):
     return cmd + extra
 
 
+def target_dir(unit, prep, scratch):
+    # one build directory per package, so that independent packages build side by side (no cargo lock contention)
+    return os.path.join(scratch.dir, 'target-kani-%s' % (prep['pkg'] or unit.name))
+
+
 def build(unit, prep, scratch, timeout=1800):
-    env = env_offline({'CARGO_TARGET_DIR': os.path.join(scratch.dir, 'target-kani')})
+    env = env_offline({'CARGO_TARGET_DIR': target_dir(unit, prep, scratch)})
     rc, out, secs, to = run(kani_cmd(unit, prep, ['--only-codegen']), cwd=prep['workdir'], env=env, timeout=timeout)
     return rc == 0 and not to, out, secs
 
@@ -247,7 +258,7 @@ def parse_result(out, rc, timed_out):
 
 
 def run_harness(unit, h, prep, scratch, playback=False):
-    env = env_offline({'CARGO_TARGET_DIR': os.path.join(scratch.dir, 'target-kani')})
+    env = env_offline({'CARGO_TARGET_DIR': target_dir(unit, prep, scratch)})
     extra = ['--harness', unit.full_harness(h), '--exact', '--output-format', 'terse']
     if playback:
         extra = ['--harness', unit.full_harness(h), '--exact', '-Z', 'concrete-playback', '--concrete-playback=print']
